@@ -44,6 +44,9 @@ func runC18(p *Prog, r *Report) {
 	c18Position(p, r)
 	c18OneTokenizer(p, r)
 	c18Constants(p, r)
+	c18CursorOwnership(p, r)
+	c18BufferAccess(p, r)
+	c18ReaderPassThrough(p, r)
 }
 
 // scannerRefill: the method of the scanner type that calls io.Reader.Read.
